@@ -149,7 +149,13 @@ struct Gen {
 
 impl Gen {
     fn emit(&mut self, module: &str, sources: &[&str], body: &str) {
+        self.emit_with_imports(module, &[], sources, body)
+    }
+    fn emit_with_imports(&mut self, module: &str, imports: &[&str], sources: &[&str], body: &str) {
         let mut s = String::new();
+        for i in imports {
+            let _ = writeln!(s, "import {i}");
+        }
         let _ = writeln!(s, "-- GENERATED by /verif/harness/src/bin/translate.rs from {} — do not edit.", sources.join(", "));
         let _ = writeln!(s, "namespace Selium.Gen.{module}\n");
         s.push_str(body);
@@ -181,6 +187,7 @@ fn main() {
     let mut g = Gen { dir: out, written: vec![] };
     let steps: Vec<(&str, fn(&Path, &mut Gen) -> R<()>)> = vec![
         ("Backoff", gen_backoff),
+        ("Frame", gen_frame),
     ];
     let mut failed = false;
     for (name, f) in steps {
@@ -191,4 +198,271 @@ fn main() {
     }
     println!("generated: {}", g.written.join(" "));
     if failed { std::process::exit(3); }
+}
+
+// ------------------------------------------------------------------------------------------ frames
+
+use syn::{Fields, ImplItem, Pat, Type};
+
+struct TypeEnv {
+    structs: BTreeMap<String, Vec<(String, Type)>>,
+    enums: BTreeMap<String, Vec<(String, Option<Type>)>>,
+    aliases: BTreeMap<String, Type>,
+    emitted: Vec<(String, String)>, // (lean def name, body) in dependency order
+}
+
+fn has_serde_attr(attrs: &[syn::Attribute]) -> bool {
+    attrs.iter().any(|a| a.path().is_ident("serde"))
+}
+
+impl TypeEnv {
+    fn new() -> Self { TypeEnv { structs: BTreeMap::new(), enums: BTreeMap::new(), aliases: BTreeMap::new(), emitted: vec![] } }
+    fn absorb(&mut self, src: &Src) -> R<()> {
+        for it in &src.ast.items {
+            match it {
+                Item::Struct(s) => {
+                    if has_serde_attr(&s.attrs) { return shape(&src.rel, format!("struct {} carries a #[serde] attribute", s.ident)); }
+                    let mut fs = vec![];
+                    match &s.fields {
+                        Fields::Named(n) => for f in &n.named {
+                            if has_serde_attr(&f.attrs) { return shape(&src.rel, format!("field of {} carries a #[serde] attribute", s.ident)); }
+                            fs.push((f.ident.as_ref().unwrap().to_string(), f.ty.clone()));
+                        },
+                        Fields::Unnamed(u) => for (i, f) in u.unnamed.iter().enumerate() { fs.push((format!("{i}"), f.ty.clone())); },
+                        Fields::Unit => {}
+                    }
+                    self.structs.insert(s.ident.to_string(), fs);
+                }
+                Item::Enum(e) => {
+                    if has_serde_attr(&e.attrs) { return shape(&src.rel, format!("enum {} carries a #[serde] attribute", e.ident)); }
+                    let mut vs = vec![];
+                    for v in &e.variants {
+                        if has_serde_attr(&v.attrs) { return shape(&src.rel, format!("variant of {} carries a #[serde] attribute", e.ident)); }
+                        let payload = match &v.fields {
+                            Fields::Unit => None,
+                            Fields::Unnamed(u) if u.unnamed.len() == 1 => Some(u.unnamed[0].ty.clone()),
+                            _ => return shape(&src.rel, format!("enum {}::{}: only unit and newtype variants are understood", e.ident, v.ident)),
+                        };
+                        vs.push((v.ident.to_string(), payload));
+                    }
+                    self.enums.insert(e.ident.to_string(), vs);
+                }
+                Item::Type(t) => { self.aliases.insert(t.ident.to_string(), (*t.ty).clone()); }
+                _ => {}
+            }
+        }
+        Ok(())
+    }
+    /// Lean `Ty` expression for a Rust type as serde+bincode lay it out
+    fn ty(&mut self, t: &Type, ctx: &str) -> R<String> {
+        let p = match t { Type::Path(p) => p, _ => return shape(ctx, format!("unsupported type {}", quote::quote!(#t))) };
+        let last = p.path.segments.last().unwrap();
+        let name = last.ident.to_string();
+        let args: Vec<&Type> = match &last.arguments {
+            syn::PathArguments::AngleBracketed(a) => a.args.iter().filter_map(|g| if let syn::GenericArgument::Type(t) = g { Some(t) } else { None }).collect(),
+            _ => vec![],
+        };
+        Ok(match (name.as_str(), args.len()) {
+            ("u8", 0) => ".u8".into(),
+            ("u32", 0) => ".u32".into(),
+            ("u64", 0) => ".u64".into(),
+            ("String", 0) => ".str".into(),
+            ("Bytes", 0) => ".bytes".into(),
+            ("Vec", 1) => format!("(.vec {})", self.ty(args[0], ctx)?),
+            ("Option", 1) => format!("(.opt {})", self.ty(args[0], ctx)?),
+            ("HashMap", 2) => format!("(.map {} {})", self.ty(args[0], ctx)?, self.ty(args[1], ctx)?),
+            (n, 0) if self.aliases.contains_key(n) => { let a = self.aliases[n].clone(); self.ty(&a, ctx)? }
+            (n, 0) if self.structs.contains_key(n) => self.named_struct(n, ctx)?,
+            (n, 0) if self.enums.contains_key(n) => self.named_enum(n, ctx)?,
+            _ => return shape(ctx, format!("type {} is not understood by the translator", quote::quote!(#t))),
+        })
+    }
+    fn named_struct(&mut self, n: &str, ctx: &str) -> R<String> {
+        let def = format!("ty{n}");
+        if !self.emitted.iter().any(|(d, _)| d == &def) {
+            let fields = self.structs[n].clone();
+            let mut parts = vec![];
+            for (_, t) in &fields { parts.push(self.ty(t, ctx)?); }
+            self.emitted.push((def.clone(), format!(".struct [{}]", parts.join(", "))));
+        }
+        Ok(def)
+    }
+    fn named_enum(&mut self, n: &str, ctx: &str) -> R<String> {
+        let def = format!("ty{n}");
+        if !self.emitted.iter().any(|(d, _)| d == &def) {
+            let vs = self.enums[n].clone();
+            let mut parts = vec![];
+            for (v, t) in &vs {
+                match t { Some(t) => parts.push(self.ty(t, ctx)?), None => return shape(ctx, format!("enum {n}::{v}: unit variants inside payloads are not understood")) }
+            }
+            self.emitted.push((def.clone(), format!(".enum [{}]", parts.join(", "))));
+        }
+        Ok(def)
+    }
+}
+
+fn find_method<'a>(ast: &'a syn::File, self_ty: &str, method: &str, trait_name: Option<&str>) -> Option<&'a syn::ImplItemFn> {
+    for it in &ast.items {
+        if let Item::Impl(im) = it {
+            let ty = &im.self_ty;
+            if quote::quote!(#ty).to_string() != self_ty { continue; }
+            let tn = im.trait_.as_ref().map(|(_, p, _)| p.segments.last().unwrap().ident.to_string());
+            if tn.as_deref() != trait_name { continue; }
+            for ii in &im.items {
+                if let ImplItem::Fn(f) = ii { if f.sig.ident == method { return Some(f); } }
+            }
+        }
+    }
+    None
+}
+
+/// the (single) `match` expression in a function body, possibly wrapped (`Ok(match ..)`, `let frame = match ..`)
+fn find_match(block: &syn::Block) -> Option<syn::ExprMatch> {
+    struct V(Option<syn::ExprMatch>);
+    impl<'ast> syn::visit::Visit<'ast> for V {
+        fn visit_expr_match(&mut self, m: &'ast syn::ExprMatch) {
+            if self.0.is_none() { self.0 = Some(m.clone()); }
+        }
+    }
+    let mut v = V(None);
+    syn::visit::Visit::visit_block(&mut v, block);
+    v.0
+}
+
+fn pat_variant(p: &Pat) -> Option<String> {
+    match p {
+        Pat::TupleStruct(t) => Some(t.path.segments.last().unwrap().ident.to_string()),
+        Pat::Path(t) => Some(t.path.segments.last().unwrap().ident.to_string()),
+        Pat::Ident(i) => Some(i.ident.to_string()),
+        _ => None,
+    }
+}
+
+fn body_kind(tokens: &str, patterns: &[(&str, &str)]) -> Option<String> {
+    for (needle, kind) in patterns {
+        if tokens.contains(needle) { return Some(kind.to_string()); }
+    }
+    None
+}
+
+fn gen_frame(repo: &Path, g: &mut Gen) -> R<()> {
+    let codec_rel = "protocol/src/codec.rs";
+    let frame_rel = "protocol/src/frame.rs";
+    let codec = Src::load(repo, codec_rel)?;
+    let frame = Src::load(repo, frame_rel)?;
+    let topic = Src::load(repo, "protocol/src/topic_name.rs")?;
+    let oper = Src::load(repo, "protocol/src/operation.rs")?;
+    let max = codec.const_int("MAX_MESSAGE_SIZE")?;
+    let lenm = codec.const_int("LEN_MARKER_SIZE")?;
+    let typm = codec.const_int("TYPE_MARKER_SIZE")?;
+    let resv = codec.const_int("RESERVED_SIZE")?;
+
+    let mut env = TypeEnv::new();
+    env.absorb(&frame)?; env.absorb(&topic)?; env.absorb(&oper)?;
+    let variants = match env.enums.get("Frame") { Some(v) => v.clone(), None => return shape(frame_rel, "enum Frame not found") };
+    let consts = frame.consts();
+
+    // get_type: variant -> tag
+    let mut tag_of: BTreeMap<String, u128> = BTreeMap::new();
+    let gt = find_method(&frame.ast, "Frame", "get_type", None).ok_or_else(|| Shape(format!("{frame_rel}: Frame::get_type not found")))?;
+    let m = find_match(&gt.block).ok_or_else(|| Shape(format!("{frame_rel}: get_type has no match")))?;
+    for arm in &m.arms {
+        let v = pat_variant(&arm.pat).ok_or_else(|| Shape(format!("{frame_rel}: get_type arm pattern not understood")))?;
+        let val = eval_int(&arm.body, &consts).map_err(|w| Shape(format!("{frame_rel}: get_type arm {v}: {w}")))?;
+        tag_of.insert(v, val);
+    }
+    // get_length: variant -> body kind
+    let mut len_body: BTreeMap<String, String> = BTreeMap::new();
+    let gl = find_method(&frame.ast, "Frame", "get_length", None).ok_or_else(|| Shape(format!("{frame_rel}: Frame::get_length not found")))?;
+    let m = find_match(&gl.block).ok_or_else(|| Shape(format!("{frame_rel}: get_length has no match")))?;
+    for arm in &m.arms {
+        let v = pat_variant(&arm.pat).ok_or_else(|| Shape(format!("{frame_rel}: get_length arm pattern not understood")))?;
+        let b = &arm.body;
+        let toks = quote::quote!(#b).to_string();
+        let k = if toks.trim() == "0" { Some("empty".to_string()) } else {
+            body_kind(&toks, &[("bincode :: serialized_size (payload)", "bincode"), ("bytes . len () as u64", "raw")]) };
+        match k { Some(k) => { len_body.insert(v, k); } None => return shape(frame_rel, format!("get_length arm {v} not understood: {toks}")) }
+    }
+    // write_to_bytes
+    let mut write_body: BTreeMap<String, String> = BTreeMap::new();
+    let wb = find_method(&frame.ast, "Frame", "write_to_bytes", None).ok_or_else(|| Shape(format!("{frame_rel}: Frame::write_to_bytes not found")))?;
+    let m = find_match(&wb.block).ok_or_else(|| Shape(format!("{frame_rel}: write_to_bytes has no match")))?;
+    for arm in &m.arms {
+        let v = pat_variant(&arm.pat).ok_or_else(|| Shape(format!("{frame_rel}: write_to_bytes arm pattern not understood")))?;
+        let b = &arm.body;
+        let toks = quote::quote!(#b).to_string();
+        let k = if toks.trim() == "()" { Some("empty".to_string()) } else {
+            body_kind(&toks, &[("bincode :: serialize_into (dst . writer () , & payload)", "bincode"), ("dst . extend_from_slice (& bytes)", "raw")]) };
+        match k { Some(k) => { write_body.insert(v, k); } None => return shape(frame_rel, format!("write_to_bytes arm {v} not understood: {toks}")) }
+    }
+    // try_from: tag -> (variant, body kind), in source order
+    let mut read: Vec<(u128, String, String)> = vec![];
+    let tf = find_method(&frame.ast, "Frame", "try_from", Some("TryFrom")).ok_or_else(|| Shape(format!("{frame_rel}: TryFrom for Frame not found")))?;
+    let m = find_match(&tf.block).ok_or_else(|| Shape(format!("{frame_rel}: try_from has no match")))?;
+    let mut saw_default = false;
+    for arm in &m.arms {
+        let name = pat_variant(&arm.pat).ok_or_else(|| Shape(format!("{frame_rel}: try_from arm pattern not understood")))?;
+        let b = &arm.body;
+        let toks = quote::quote!(#b).to_string();
+        if !consts.contains_key(&name) {
+            // the catch-all arm must be the unknown-type error
+            if !toks.contains("UnknownMessageType") { return shape(frame_rel, format!("try_from catch-all arm not understood: {toks}")); }
+            saw_default = true;
+            continue;
+        }
+        if saw_default { return shape(frame_rel, "try_from: arm after the catch-all"); }
+        let tag = eval_int(&consts[&name], &consts).map_err(|w| Shape(format!("{frame_rel}: {name}: {w}")))?;
+        // Frame::<Variant>(..) or Frame::<Variant>
+        let var = variants.iter().map(|(v, _)| v.clone()).find(|v| toks.contains(&format!("Frame :: {v} (")) || toks.trim() == format!("Frame :: {v}"));
+        let var = match var { Some(v) => v, None => return shape(frame_rel, format!("try_from arm {name}: constructed variant not understood: {toks}")) };
+        let k = if toks.trim() == format!("Frame :: {var}") { Some("empty".to_string()) } else {
+            body_kind(&toks, &[("bincode :: deserialize (& bytes)", "bincode"), ("(bytes . into ())", "raw")]) };
+        match k { Some(k) => read.push((tag, var, k)), None => return shape(frame_rel, format!("try_from arm {name} not understood: {toks}")) }
+    }
+    if !saw_default { return shape(frame_rel, "try_from has no catch-all arm"); }
+
+    // payload schemas
+    let mut schema: BTreeMap<String, String> = BTreeMap::new();
+    for (v, payload) in &variants {
+        if let Some(t) = payload {
+            let ts = quote::quote!(#t).to_string();
+            if ts == "Bytes" { continue; }
+            schema.insert(v.clone(), env.ty(t, frame_rel)?);
+        }
+    }
+    let body_expr = |v: &str, k: &str| -> R<String> {
+        Ok(match k {
+            "bincode" => match schema.get(v) { Some(s) => format!(".bincode {s}"), None => return shape(frame_rel, format!("variant {v} is (de)serialised with bincode but has no payload struct")) },
+            "raw" => ".raw".into(),
+            _ => ".empty".into(),
+        })
+    };
+    let mut s = String::new();
+    let _ = writeln!(s, "open Selium.Bincode Selium.Wire\n");
+    let _ = writeln!(s, "/-- `MAX_MESSAGE_SIZE` -/\ndef maxMessageSize : Nat := {max}\ndef lenMarkerSize : Nat := {lenm}\ndef typeMarkerSize : Nat := {typm}\n/-- `RESERVED_SIZE` -/\ndef reservedSize : Nat := {resv}\n");
+    let _ = writeln!(s, "/-- the variants of `enum Frame`, in source order -/\ninductive Kind where");
+    for (v, _) in &variants { let _ = writeln!(s, "  | {v}"); }
+    let _ = writeln!(s, "  deriving DecidableEq, Repr\n");
+    let _ = writeln!(s, "def Kind.all : List Kind := [{}]\n", variants.iter().map(|(v, _)| format!(".{v}")).collect::<Vec<_>>().join(", "));
+    for (d, b) in &env.emitted { let _ = writeln!(s, "def {d} : Ty := {b}"); }
+    let _ = writeln!(s, "\n/-- `Frame::get_type` -/\ndef tagOf : Kind → Nat");
+    for (v, _) in &variants {
+        match tag_of.get(v) { Some(t) => { let _ = writeln!(s, "  | .{v} => {t}"); } None => return shape(frame_rel, format!("get_type has no arm for {v}")) }
+    }
+    let _ = writeln!(s, "\n/-- the arms of `TryFrom<(u8, BytesMut)>`, in source order -/\ndef kindOfTag (t : Nat) : Option Kind :=");
+    for (tag, v, _) in &read { let _ = writeln!(s, "  if t = {tag} then some .{v} else"); }
+    let _ = writeln!(s, "  none\n");
+    for (name, table) in [("lenBody", &len_body), ("writeBody", &write_body)] {
+        let _ = writeln!(s, "def {name} : Kind → Body");
+        for (v, _) in &variants {
+            match table.get(v) { Some(k) => { let _ = writeln!(s, "  | .{v} => {}", body_expr(v, k)?); } None => return shape(frame_rel, format!("{name}: no arm for {v}")) }
+        }
+        let _ = writeln!(s);
+    }
+    let _ = writeln!(s, "def readBody : Kind → Body");
+    for (v, _) in &variants {
+        match read.iter().find(|(_, rv, _)| rv == v) { Some((_, _, k)) => { let _ = writeln!(s, "  | .{v} => {}", body_expr(v, k)?); } None => { let _ = writeln!(s, "  | .{v} => .empty  -- never produced by try_from"); } }
+    }
+    g.emit_with_imports("Frame", &["SeliumModel.Wire.Schema"], &[codec_rel, frame_rel, "protocol/src/topic_name.rs", "protocol/src/operation.rs"], &s);
+    Ok(())
 }
